@@ -274,7 +274,7 @@ C07_lowest(T) ==
      /\ LET b == T.acts[BaseIdx(T, k)]
             c == T.acts[k].subj
             others == HopefulAt(T.acts[k]) \ {x \in Cand(T) : Exempt(T, x)}
-            slack == IF T.fam = "meek" THEN b.surplus ELSE 0
+            slack == IF T.fam = "meek" /\ ~LT(T, b.surplus, 0) THEN b.surplus ELSE 0     \* a negative surplus (rounding) widens nothing
         IN \E h \in others : LT(T, Measure(T, b, h) + slack, Measure(T, b, c))}
 C07_batch(T) ==
   {k \in 1 .. NA(T) : NonFinalDefeat(T, k) /\
@@ -333,7 +333,8 @@ ExpectedTied(T, k) ==
       m == [c \in Cand(T) |-> Measure(T, b, c)]
   IN IF a.tag = "defeat"
      THEN LET pool == HopefulAt(a) \cup {a.subj} IN
-          IF T.fam = "meek" THEN {c \in pool : ~LT(T, TrueMin(m, pool) + b.surplus, m[c])}
+          IF T.fam = "meek"       \* within the surplus of the lowest; a negative surplus (rounding) widens nothing
+          THEN LET margin == IF LT(T, b.surplus, 0) THEN 0 ELSE b.surplus IN {c \in pool : ~LT(T, TrueMin(m, pool) + margin, m[c])}
           ELSE {c \in pool : EQ(T, m[c], PyExt(T, m, pool, "min"))}
      ELSE LET pool == IF T.rule = "mpls" THEN {c \in HopefulAt(a) \cup {a.subj} : a.vote[c] >= a.quota}
                       ELSE IF T.fam = "qpq" THEN HopefulAt(a) \cup {a.subj}
@@ -509,7 +510,12 @@ FailC02(T) == Tag("C02", "nonneg", C02_nonneg(T)) \cup Tag("C02", "upper", C02_u
 FailC04(T) == Tag("C04", "quota_greg", C04_quota_greg(T)) \cup Tag("C04", "quota_meek", C04_quota_meek(T)) \cup
               Tag("C04", "quota_qpq", C04_quota_qpq(T)) \cup Tag("C04", "i", C04_i(T)) \cup
               Tag("C04", "ii", C04_ii(T)) \cup Tag("C04", "iii", C04_iii(T))
-FailC05(T) == Tag("C05", "dpc", C05_dpc(T))
+(* F11 (known finding): warren -- an iteration ends `stable' with a surplus above omega and a candidate is then excluded *)
+(* with that surplus untransferred (the same criterion as checks.f11_match)                                             *)
+F11(T) == T.rule = "warren" /\ \E k \in 1 .. NA(T) :
+            /\ T.acts[k].mc = "iterate_stable" /\ T.acts[k].surplus - T.omega >= T.geps
+            /\ \E j \in (k + 1) .. Min2(k + 3, NA(T)) : T.acts[j].tag = "defeat" /\ T.acts[j].mc # "defeat_remaining"
+FailC05(T) == Tag("C05", IF F11(T) THEN "KNOWN_F11" ELSE "dpc", C05_dpc(T))
 FailC06(T) == Tag("C06", "tally", C06_tally(T)) \cup Tag("C06", "skip", C06_skip(T)) \cup
               Tag("C06", "left", C06_left(T)) \cup Tag("C06", "range", C06_range(T)) \cup
               Tag("C06", "surplus", C06_surplus(T)) \cup Tag("C06", "exclusion", C06_exclusion(T)) \cup
